@@ -1,6 +1,6 @@
 From Coq Require Import ZArith List Arith.
-From BQ Require Import lib.Cyclo pass.Rules gen.RulePasses pass.ScanSkel.
+From BQ Require Import lib.Cyclo pass.Rules gen.RulePasses pass.ScanSkel pass.Util.
 From Coq Require Extraction ExtrOcamlBasic.
 Extraction "passes_model.ml" rewrite all_rules all_shapes gate_mat gate_kind circ_den op_den rule_ok
-  scan treescan exhaustive iter_scan iter_fwd all_ops num_ops
-  rebase_all subst_loop.
+  scan treescan exhaustive iter_scan iter_fwd iter_rev all_ops num_ops
+  rebase_all subst_loop unfold_all group_single compress.
